@@ -125,6 +125,36 @@ func (c *caseRun) run(allOffsets bool, tornEntries int) {
 			}
 		}
 	}
+	// torn write of ONE entry that is not the last: the entries after it reached the disk (pages written out
+	// of order before the power loss), bytes [j, end) of this one did not
+	if n >= 2 {
+		mids := []int{c.rng.Intn(n - 1), c.rng.Intn(n - 1)}
+		for _, k := range mids {
+			start, end := st[k], st[k+1]
+			L := end - start
+			js := []int{0, c.rng.Intn(L), c.rng.Intn(L)}
+			for _, j := range js {
+				for _, kind := range []string{"zero", "ff", "rand", "flip"} {
+					fill := make([]byte, L-j)
+					switch kind {
+					case "ff":
+						for i := range fill {
+							fill[i] = 0xff
+						}
+					case "rand":
+						copy(fill, c.rng.Bytes(L-j))
+					case "flip":
+						copy(fill, c.seg[start+j:end])
+						fill[0] ^= 1 << uint(c.rng.Intn(8))
+					}
+					img := append(append(append([]byte(nil), c.seg[:start+j]...), fill...), c.seg[end:]...)
+					c.r.Emit("tornmid "+ks+" "+strconv.Itoa(start)+" "+strconv.Itoa(j)+" "+hex.EncodeToString(fill)+" "+kind,
+						c.recoverImage(img))
+					c.r.Count("image:tornmid-" + kind)
+				}
+			}
+		}
+	}
 	var key strings.Builder
 	for _, o := range c.ops {
 		key.WriteString(o.Line() + ";")
@@ -134,7 +164,7 @@ func (c *caseRun) run(allOffsets bool, tornEntries int) {
 
 func main() {
 	r := hlib.Start()
-	r.Rule = "log files written by the real aof store for random mutation histories; every truncation offset of the file; torn writes of the last entry (of the full log and of random log prefixes): bytes [j, end) of the frame replaced by zeros / 0xFF / random bytes / a single bit flip, for every j; each image reopened with the real aof.New; non-trivial = distinct history with a non-empty log"
+	r.Rule = "log files written by the real aof store for random mutation histories; every truncation offset of the file; torn writes of the last entry (of the full log and of random log prefixes): bytes [j, end) of the frame replaced by zeros / 0xFF / random bytes / a single bit flip, for every j; the same four fills on an entry that is NOT the last with the later entries intact (whole entry and random j); each image reopened with the real aof.New; non-trivial = distinct history with a non-empty log"
 	rng := hlib.NewRng(r.Seed)
 	if r.Replay != "" {
 		var ops []aofh.Op
